@@ -62,7 +62,7 @@ def every_opening_wakes(F, R, ver):
     n = 0
     for b in F.find(r'^%s::shared::MqttShared::[a-z_]+$' % ver):
         opens = []
-        for bi, t, ap in calls_on_field(b, r'VecDeque::<T, A>::(pop_front|pop_back)$', 'inflight'):
+        for bi, t, ap in calls_on_field(b, r'VecDeque::<T, A>::(pop_front|pop_back|remove|swap_remove_back|swap_remove_front)$', 'inflight'):
             opens.append((bi, 'pops outstanding entry'))
         for bi, t in b.calls_to(r'^std::cell::Cell::<T>::set$'):
             if (call_recv_path(b, t, 0) or ('',))[-1] == 'cap':
@@ -330,7 +330,7 @@ def wakes_only_where_the_window_opens(F, R, ver):
     exceeded by one for each such wake-up. Counted over every body of the version, helpers spliced into their callers."""
     openers = set()
     for b in F.find(r'^%s::shared::MqttShared::[a-z_]+$' % ver):
-        if calls_on_field(b, r'VecDeque::<T, A>::(pop_front|pop_back)$', 'inflight') or b.path.endswith('::disable_wr_backpressure') \
+        if calls_on_field(b, r'VecDeque::<T, A>::(pop_front|pop_back|remove|swap_remove_back|swap_remove_front)$', 'inflight') or b.path.endswith('::disable_wr_backpressure') \
                 or any((call_recv_path(b, t, 0) or ('',))[-1] == 'cap' for bi, t in b.calls_to(r'^std::cell::Cell::<T>::set$')):
             openers.add(b.path)
     n = 0
